@@ -824,6 +824,12 @@ class CumulativeOp:
             a["method"] = "blelloch"
         if rng.random() < 0.1:
             a["axis"] = None
+        if rng.random() < 0.3 and x.dtype.kind in "fiu":
+            # the generic public entry point with RAW ufuncs as the combining operator (what xarray's scan
+            # passes): da.cumreduction(np.cumsum, np.add, 0, x, axis)
+            a = {"f": "cumreduction", "ufunc": rng.choice(["add", "add", "multiply", "maximum"]), "axis": rng.randrange(x.ndim)}
+            if rng.random() < 0.25:
+                a["method"] = "blelloch"
         return a
 
     @staticmethod
@@ -833,6 +839,12 @@ class CumulativeOp:
         kw = {}
         if "method" in a:
             kw["method"] = a["method"]
+        if a["f"] == "cumreduction":
+            func, binop, ident = {"add": (np.cumsum, np.add, 0), "multiply": (np.cumprod, np.multiply, 1),
+                                  "maximum": (np.maximum.accumulate, np.maximum, -np.inf)}[a["ufunc"]]
+            if a["ufunc"] == "maximum":
+                x = x.astype("f8")
+            return da.cumreduction(func, binop, ident, x, axis=a["axis"], dtype=x.dtype, **kw)
         return getattr(da, a["f"])(x, axis=a["axis"], **kw)
 
 
